@@ -38,7 +38,19 @@ type mFunc struct {
 	m      *machine
 	labels map[label]*instruction
 	abi    *backend.FunctionABI
+	tables []mJmpTable
 }
+
+// mJmpTable is one jump-table island: it starts at label begin and holds, per entry, the distance from begin to the target.
+type mJmpTable struct {
+	begin   label
+	targets []uint32
+}
+
+// code addresses of the model: every label lives on its own 4 KiB page
+const mCodeBase = uint64(0x7ffd_0000_0000)
+
+func mLabelAddr(l label) uint64 { return mCodeBase + uint64(l)<<12 }
 
 type mState struct {
 	w     *frontend.VWorld
@@ -54,6 +66,7 @@ type mState struct {
 	exitCode   uint64
 	unsupp     string
 	stoppedAt  *instruction
+	cur        *mFunc
 }
 
 func (s *mState) unsupported(why string) {
@@ -81,6 +94,9 @@ func mCompile(w *frontend.VWorld) []*mFunc {
 				if _, ok := f.labels[in.nop0Label()]; !ok {
 					f.labels[in.nop0Label()] = in
 				}
+			}
+			if in.kind == jmpTableIsland && in.prev != nil && in.prev.kind == nop0 && in.prev.nop0Label() != 0 {
+				f.tables = append(f.tables, mJmpTable{begin: in.prev.nop0Label(), targets: m.jmpTableTargets[in.u1][:in.u2]})
 			}
 		}
 		out = append(out, f)
@@ -180,7 +196,22 @@ func (s *mState) loadMem(addr, width uint64) uint64 {
 		return s.stackLoad(addr, width)
 	}
 	if addr-mLabelTag < 1<<20 {
-		s.unsupported("load from the code segment (jump table)")
+		s.unsupported("load from the code segment")
+		return 0
+	}
+	if addr-mCodeBase < 1<<28 {
+		// an entry of one of the current function's jump tables
+		if width == 8 && s.cur != nil {
+			for _, t := range s.cur.tables {
+				for i, tgt := range t.targets {
+					if addr == mLabelAddr(t.begin)+8*uint64(i) {
+						return mLabelAddr(label(tgt)) - mLabelAddr(t.begin)
+					}
+				}
+			}
+		}
+		verifrt.Assert(false, "a load from the code segment reads an entry of a jump table of the running function")
+		s.unsupported("load from the code segment outside a jump table")
 		return 0
 	}
 	return s.w.Load(addr, width)
@@ -327,6 +358,7 @@ func (s *mState) runFrom(cur *mFunc, in *instruction) int {
 		}
 		next := in.next
 		_64 := in.b1
+		s.cur = cur
 		if mTrace {
 			println("  ", in.String(), " rax=", s.gpr[0], "rcx=", s.gpr[1], "rbx=", s.gpr[3], "rsp=", s.gpr[4])
 		}
@@ -478,7 +510,9 @@ func (s *mState) runFrom(cur *mFunc, in *instruction) int {
 		case movRM:
 			s.storeMem(s.addr(in.op2.addressMode()), in.u1, s.reg(in.op1.reg())&wmask(in.u1))
 		case lea:
-			if in.op1.kind == operandKindLabel || in.op1.addressMode().kind() == amodeRipRel {
+			if in.op1.kind == operandKindLabel {
+				s.setReg(in.op2.reg(), mLabelAddr(in.op1.label()), true)
+			} else if in.op1.addressMode().kind() == amodeRipRel {
 				s.setReg(in.op2.reg(), mLabelTag, true)
 			} else {
 				s.setReg(in.op2.reg(), s.addr(in.op1.addressMode()), true)
@@ -571,7 +605,25 @@ func (s *mState) runFrom(cur *mFunc, in *instruction) int {
 			if in.op1.kind == operandKindLabel {
 				next = cur.labels[in.op1.label()]
 			} else {
-				s.unsupported("computed jump")
+				// computed jump: the target must be the address of a jump-table target of this function
+				var v uint64
+				if in.op1.kind == operandKindMem {
+					v = s.loadMem(s.addr(in.op1.addressMode()), 8)
+				} else {
+					v = s.reg(in.op1.reg())
+				}
+				found := false
+				for _, t := range cur.tables {
+					for _, tgt := range t.targets {
+						if !found && v == mLabelAddr(label(tgt)) {
+							next, found = cur.labels[label(tgt)], true
+						}
+					}
+				}
+				verifrt.Assert(found, "a computed jump goes to one of the function's jump-table targets")
+				if !found {
+					s.unsupported("computed jump to an unknown address")
+				}
 			}
 		case jmpIf:
 			if s.cond(cond(in.u1)) {
@@ -791,6 +843,10 @@ func vCompareMachine(set string, i int) {
 		}
 		args[k] = v
 	}
+	if lm := frontend.VProgramLoopMax(set, i); lm != 0 {
+		n := uint32(args[0])
+		verifrt.Assume(n >= 1 && n <= lm)
+	}
 	resI, trapI, finalI, globI, ok := interpreter.VerifInterpRun(bin, "f", memI, 65536, args)
 	verifrt.Assert(ok, "interpreter accepts the program")
 	if !ok {
@@ -847,6 +903,15 @@ func VerifC01_L2_T1c() {
 		verifrt.Assume(false)
 	}
 	vCompareMachine("T1c", i)
+}
+
+// VerifC01_L2_T3: control flow (if/else, br_if, loops with loop-carried values that are shifted, swapped and rotated on the
+// back edge, globals, calls, multi-value) at the level of the final machine instructions: block-argument moves, register
+// allocation across edges, spills around calls.
+//verif:opts split=prog:14
+func VerifC01_L2_T3() {
+	_, _, _, _, _, _, n := frontend.VProgram("T3", 0)
+	vCompareMachine("T3", verifrt.Choose("prog", n))
 }
 
 func vFamilyPart(set string, parts int) int {
